@@ -21,6 +21,10 @@ RULE = (
     "cache and workspace. Non-trivial and distinct = distinct (tree, query path, cwd mode) where at least two "
     "projects enclose the path or the path lies inside a job directory."
 )
+RULE += (
+    " " + "Added later: the sweep repeated after a project appears in / disappears from a directory already asked about; paths climbing out with '..'; directories named '~'; truncated cache files."
+    " In every third case DEBUG logging is effective for the package."
+)
 ASSUMPTIONS = [
     "Paths are resolved lexically (abspath), as the code documents; a symlinked job directory belongs to the project "
     "whose workspace holds the link.",
